@@ -17,6 +17,7 @@ import subprocess
 import sys
 import time
 
+RLIMIT = 30  # generous: undecided (rlimit) outcomes are machinery noise, never verdicts
 VERIF = os.path.dirname(os.path.dirname(os.path.abspath(__file__)))
 EXTRACTOR = os.path.join(VERIF, "tools/extractor/target/release/extractor")
 CONTRACTS = os.path.join(VERIF, "contracts")
@@ -198,7 +199,13 @@ def do_unit(unit, ucfg, repo, wdir, tier, prop):
     regions = m["regions"]
     R["rules_fired"] = m.get("rules_fired", {})
     src_name = os.path.basename(src)
-    vr = run_verus(unit, src, wdir, tier)
+    # main pass and vacuity pass run concurrently (two verus processes)
+    vac_rc, vac_err, vsrc, vmp = extract(unit, ucfg, repo, wdir, vacuity=True)
+    with cf.ThreadPoolExecutor(max_workers=2) as ex2:
+        fut_main = ex2.submit(run_verus, unit, src, wdir, tier, None, RLIMIT)
+        fut_vac = ex2.submit(run_verus, unit + "_vac", vsrc, wdir, tier, None, RLIMIT, None, False, 2) if vac_rc == 0 else None
+        vr = fut_main.result()
+        vv = fut_vac.result() if fut_vac else None
     R["verus_cmd"] = vr["cmd"]
     R["verus_wall_s"] = vr["wall_s"]
     if vr["json"] is None:
@@ -274,19 +281,17 @@ def do_unit(unit, ucfg, repo, wdir, tier, prop):
                 break
     R["trusted"] = sorted(set(trusted))
     # vacuity pass
-    rc, err, vsrc, vmp = extract(unit, ucfg, repo, wdir, vacuity=True)
-    if rc != 0:
-        R["undecided"].append({"message": "extractor(vacuity): " + err})
+    if vac_rc != 0:
+        R["undecided"].append({"message": "extractor(vacuity): " + vac_err})
     else:
         vm = load_json(vmp)
-        vv = run_verus(unit + "_vac", vsrc, wdir, tier, log_air=False, multiple_errors=40)
         probes = vm.get("vacuity_probes", [])
         hit = set()
         for d in vv["diags"]:
             if d.get("level") == "error" and d.get("message", "").startswith("assertion failed"):
-                for s in d.get("spans", []):
-                    if s.get("is_primary"):
-                        hit.add(s["line_start"])
+                for sp in d.get("spans", []):
+                    if sp.get("is_primary"):
+                        hit.add(sp["line_start"])
         missing = [p for p in probes if p["line"] not in hit]
         R["vacuity"] = {"probes": len(probes), "reachable": len(probes) - len(missing),
                         "missing": [p["what"] for p in missing], "wall_s": vv["wall_s"]}
